@@ -610,9 +610,25 @@ func pendingShapeClass(wd *world) string {
 }
 
 func body(w *hx.W) {
-	srv := kit.NewServer(kit.ServerCfg{Caps: imap.CapSet{imap.CapIMAP4rev1: {}}, InsecureAuth: true})
-	srv.B.Handler = handler
-	defer srv.Close()
+	newSrv := func() *kit.Server {
+		s := kit.NewServer(kit.ServerCfg{Caps: imap.CapSet{imap.CapIMAP4rev1: {}}, InsecureAuth: true})
+		s.B.Handler = handler
+		return s
+	}
+	srv := newSrv()
+	defer func() { srv.Close() }()
+	// the recording backend keeps every session and call it has seen: a server object is retired after
+	// 1000 histories so that the cost of a history does not grow with the number of histories before it
+	used := 0
+	turn := func() {
+		if used++; used%1000 == 0 {
+			if p := srv.Log.Panics(); len(p) > 0 {
+				w.Violation("server-panic", p[0], nil)
+			}
+			srv.Close()
+			srv = newSrv()
+		}
+	}
 	// exhaustive: all histories of length <= L over a 3-message mailbox with 2 sessions
 	alphabet := []int{0, 1, 10, 11, 12, 20, 22, 30, 40, 50, 51, 60, 61}
 	L := w.Pick(4, 5)
@@ -623,6 +639,7 @@ func body(w *hx.W) {
 		if len(ops) > 0 {
 			idx++
 			if w.Mine(idx) {
+				turn()
 				runHistory(w, srv, 3, 2, ops)
 				enumerated++
 			}
@@ -640,7 +657,7 @@ func body(w *hx.W) {
 	w.Sample(map[string]interface{}{"kind": "exhaustive histories", "alphabet": "append(+1), append(+2), expunge(1..3), flags(1|3, src nil|s0), mailboxflags, poll-all(s0|s1), poll-noexpunge(s0|s1)", "max_length": L, "mailbox": 3, "sessions": 2})
 	// random long histories
 	rng := w.Rand("random")
-	n := w.Pick(400, 12000)
+	n := w.Pick(400, 6000)
 	for i := 0; i < n; i++ {
 		n0 := rng.Intn(13)
 		ns := 1 + rng.Intn(4)
@@ -669,6 +686,7 @@ func body(w *hx.W) {
 				}
 			}
 		}
+		turn()
 		runHistory(w, srv, n0, ns, ops)
 		w.CaseStr(fmt.Sprintf("%d|%d|%v", n0, ns, ops))
 		if i == 0 {
@@ -700,18 +718,20 @@ func body(w *hx.W) {
 		if !w.Mine(i) {
 			continue
 		}
+		turn()
 		runHistory(w, srv, n0, 2, ops)
 		w.CaseStr(fmt.Sprintf("long|%d|%v", n0, ops))
 		w.Class("long-queue")
 		w.Metric("long_queue_histories", 1)
 	}
 	// concurrent histories: mutation and polling overlap
-	nc := w.Pick(120, 3000)
+	nc := w.Pick(120, 1500)
 	for i := 0; i < nc; i++ {
 		seed := rng.Int63()
 		if !w.Mine(i) {
 			continue
 		}
+		turn()
 		concurrentHistory(w, srv, seed, rng.Intn(10), 1+rng.Intn(3), 150+rng.Intn(250))
 		w.Case(uint64(seed))
 	}
